@@ -31,7 +31,7 @@ type protoVariant struct {
 }
 
 func checkC05(c *hx.Ctx) {
-	c.Rule("grid: operation type {update, recover, deactivate} x anchorFrom {0,F} x anchorUntil {0,U} x anchoring time {F-1,F,F+1,U-1,U,U+1,F+D-1,F+D,F+D+1, 1, 2^40} x MaxOperationTimeDelta D {1,300,7200} x one unrelated protocol parameter moved far below/above D at a time (delta size, operation size, operation count, nonce size, hash length, file sizes, decompression factor, CAS URI length); oracle: effect in window / commitment consumed out of window / deactivate ignored, computed from (from, until, D, t) only; intake: arguments received by the installed TimeValidator = (from, effective until); exhaustive over the grid; a second grid has two protocol versions with different time deltas (genesis 0 and 5100): the default window of an operation is computed with the delta of the version stamped on the anchored operation, whatever version is in force at its anchoring time; non-trivial = every grid point with a declared window; distinct = grid points")
+	c.Rule("grid: operation type {update, recover, deactivate} x (anchorFrom, anchorUntil) in {(0,0),(0,U),(F,0),(F,U),(F,F) and the inverted, never open (U,F)} x anchoring time {F-1,F,F+1,U-1,U,U+1,F+D-1,F+D,F+D+1, 1, 2^40} x MaxOperationTimeDelta D {1,300,7200} x one unrelated protocol parameter moved far below/above D at a time (delta size, operation size, operation count, nonce size, hash length, file sizes, decompression factor, CAS URI length); oracle: effect in window / commitment consumed out of window / deactivate ignored, computed from (from, until, D, t) only; intake: arguments received by the installed TimeValidator = (from, effective until); exhaustive over the grid; a second grid has two protocol versions with different time deltas (genesis 0 and 5100): the default window of an operation is computed with the delta of the version stamped on the anchored operation, whatever version is in force at its anchoring time; non-trivial = every grid point with a declared window; distinct = grid points")
 	c.Set("exhaustive", true)
 	F, U := int64(5000), int64(5100)
 	deltas := []uint64{1, 300, 7200}
@@ -76,8 +76,9 @@ func checkC05(c *hx.Ctx) {
 		u := NewUniverse(rng.Split(ks[0]), ref.SHA256, hx.BaseProtocol(), ks)
 		cm := func(k *ref.Key) string { return k.Commitment(u.Code) }
 		k2 := []interface{}{patchAddServices(svcEntry("w", "win", "https://window.example"))}
-		for _, from := range []int64{0, F} {
-			for _, until := range []int64{0, U} {
+		for _, fu := range [][2]int64{{0, 0}, {0, U}, {F, 0}, {F, U}, {U, F}, {F, F}} { // {U, F}: inverted window, never open
+			{
+				from, until := fu[0], fu[1]
 				o := SignedOpts{From: from, Until: until}
 				ops := map[string]*ref.Op{
 					"update":     u.MkSigned(fmt.Sprintf("upd[%d,%d]", from, until), "update", u.U[0], "", cm(u.U[1]), k2, o),
@@ -118,10 +119,18 @@ func checkC05(c *hx.Ctx) {
 			wantUntil = j.from + D
 		}
 		gridPt := fmt.Sprintf("%s from=%d until=%d D=%d variant=%s keys=%s", j.kind, j.from, j.until, D, j.v.name, j.u.R[0].Type)
-		if perr != nil {
+		inverted := j.from != 0 && j.until != 0 && j.from > j.until
+		if perr != nil && inverted {
+			// the statement does not say whether intake admits a window that can never be open; what it does say - an anchored
+			// operation outside its window still consumes its commitment - is checked below either way
+			c.Count("inverted_window_refused_at_intake")
+		} else if perr != nil {
 			c.Violation("C05 intake rejected a well-formed windowed operation (time validator accepts everything): "+gridPt+": "+perr.Error(),
 				map[string]interface{}{"grid": gridPt, "request": string(j.op.Request)})
 			return
+		}
+		if perr != nil {
+			tv.calls = append(tv.calls[:0], [2]int64{j.from, wantUntil}) // nothing to compare; keep the later "no further calls" rule meaningful
 		}
 		if len(tv.calls) != 1 || tv.calls[0] != [2]int64{j.from, wantUntil} {
 			c.Violation(fmt.Sprintf("C05 time validator received %v, expected [(%d,%d)]: %s", tv.calls, j.from, wantUntil, gridPt),
